@@ -106,6 +106,15 @@ Theorem C09_cas_livelock_refuted : forall s,
 Proof. exact cas_livelock. Qed.
 Print Assumptions C09_cas_livelock_refuted.
 
+(* ... and in general, for ANY writers and ANY schedule of the code as it was:
+   one failed compare-and-swap is fatal - from then on some writer never
+   finishes, whatever happens next. (The six-step prefix above has c_fail = 1.) *)
+Theorem C09_cas_failure_is_fatal : forall progs s s',
+  c_fail (run false (init progs) s) <> 0%N ->
+  all_done (run false (init progs) (s ++ s')) = false.
+Proof. exact cas_failure_is_fatal. Qed.
+Print Assumptions C09_cas_failure_is_fatal.
+
 (* non-vacuity: three writers sharing prefix 7 (and 8), Bulk with a withdrawal,
    session-wide withdrawals with and without family, an adversarial schedule;
    the hypotheses hold, the run finishes, and the final answers for prefix 7 are
@@ -117,5 +126,6 @@ Example C09_example :
   rib_lookup (c_rib c) (ex_key 0 8 1) = Some (false, 5%N) /\
   rib_lookup (c_rib c) (ex_key 1 7 2) = Some (true, 3%N) /\
   rib_lookup (c_rib c) (ex_key 2 7 4) = Some (false, 9%N) /\
-  all_done (run true (init example_progs) (firstn 20 example_sched)) = false.
+  all_done (run true (init example_progs) (firstn 20 example_sched)) = false /\
+  c_fail (run false (init livelock_progs) livelock_prefix) = 1%N.
 Proof. vm_compute. repeat split; reflexivity. Qed.
